@@ -122,6 +122,7 @@ def handle (d : DState) (line : String) : DState × String :=
     | none => (d, "bad-op")
   | ["work"] => runC d .work
   | ["touch", key] => runC d (.touch key)
+  | ["hot", key, pk] => runC d (.hot key (pk = "1"))
   | ["cdump"] =>
     (d, "now=" ++ toString d.cs.now ++ " " ++ cacheStr d.cs.cache ++ " " ++ pendingStr d.cs.pending ++ " " ++
       trackerStr d.cs.tk.t ++ " " ++ kernelStr d.cs.tk.K)
